@@ -260,6 +260,9 @@ func (tr *Tr) discharge(cfg *SolverCfg, workers int, keep func(o *Obligation) bo
 				o.Result, o.Solver, o.TimeMs = "unsat", "z3-new", per
 			} else {
 				rest = append(rest, o)
+				if os.Getenv("GOVC_TIMING") != "" {
+					fmt.Fprintf(os.Stderr, "slow-or-failing (not discharged in the %d ms batch): %s\n", bt, o.Name)
+				}
 			}
 		}
 		todo = rest
